@@ -183,12 +183,12 @@ def run(ctx):
         for t in itertools.product(ALPHA, repeat=n):
             texts.append(b"".join(t))
     nexh = len(texts) - ncorpus
-    for _ in range(ctx.budget(350, 20000)):
+    for _ in range(ctx.budget(250, 20000)):
         parts = [rng.choice(PROTO_FRAGS) for _ in range(rng.range(1, 7))]
         for _ in range(rng.below(3)):
             parts.insert(rng.below(len(parts) + 1), rng.choice(BROKEN_FRAGS))
         texts.append("".join(parts).encode("utf-8", "surrogatepass"))
-    for _ in range(ctx.budget(150, 5000)):
+    for _ in range(ctx.budget(120, 5000)):
         texts.append(bytes(rng.choice([0x22, 0x27, 0x5c, 0x0a, 0x2f, 0x2a, 0x78, 0x75, 0x55, 0x30, 0x37, 0x20, 0x09, 0x0d, 0xc3, 0xa9, 0x3b,
                                        0x61, 0x2e, 0x65, 0x2b, 0x00, 0xe2, 0x82, 0xac, 0x7b, 0x7d])
                            if rng.chance(9, 10) else rng.below(256) for _ in range(rng.range(1, 30))))
@@ -276,7 +276,7 @@ def run(ctx):
                                   {"text": t.hex(), "start": st, "end": en})
     # SourcePos on arbitrary byte strings with an explicit table (no lexer)
     tabs = []
-    for _ in range(ctx.budget(250, 10000)):
+    for _ in range(ctx.budget(150, 10000)):
         n = rng.range(0, 24)
         d = bytes(rng.choice([0x0a, 0x09, 0x61, 0x20, 0xc3, 0xa9, 0xe2, 0x82, 0xac, 0x80, 0xbf, 0xf0, 0x9f, 0x98, 0x0d]) if rng.chance(9, 10)
                   else rng.below(256) for _ in range(n))
